@@ -441,3 +441,37 @@ Proof.
     destruct HI as [_ HB]. rewrite Forall_forall in HB. apply HB in Hin. lia.
   - apply departed_stale with (v := v); auto.
 Qed.
+
+(* ---------- whole histories through stale handles ------------------------------------------------------------- *)
+(* an operation that goes through (at least) one stale handle *)
+Definition through_stale (s : net) (o : op) : Prop :=
+  match o with
+  | OGate1 h _ => stale s h
+  | OGate2 h1 h2 _ => stale s h1 \/ stale s h2
+  | OSend h _ => stale s h
+  | OMeas h _ _ => stale s h
+  | ONew _ | ONewReg _ _ | ONewInReg _ _ _ => False
+  end.
+
+Lemma through_stale_step s o : through_stale s o -> step s o = (s, Ignored).
+Proof.
+  destruct o as [n|h g|h1 h2 g|h t|h ip c|n mq|n ow k]; cbn [through_stale]; intro H; try contradiction.
+  - apply stale_gate1; exact H.
+  - destruct H as [H|H]; [apply stale_gate2_control | apply stale_gate2_target]; exact H.
+  - apply stale_send; exact H.
+  - apply stale_meas; exact H.
+Qed.
+
+(* any history made only of such operations is the identity on the whole network state, and every reply is Ignored *)
+Theorem stale_history_inert ops : forall s,
+  Forall (through_stale s) ops -> run s ops = s /\ run_outs s ops = map (fun _ => Ignored) ops.
+Proof.
+  induction ops as [|o ops IH]; intros s HF.
+  - split; reflexivity.
+  - inversion HF as [|o' ops' Ho Hops]; subst.
+    pose proof (through_stale_step s o Ho) as E.
+    destruct (IH s Hops) as [IR IO].
+    split.
+    + unfold run in *. cbn [fold_left]. rewrite E. cbn [fst]. exact IR.
+    + cbn [run_outs map]. rewrite E. rewrite IO. reflexivity.
+Qed.
